@@ -84,7 +84,6 @@ def budget(text):
 
 KNOWN_FRAMES = {
     ("AssertionError", "misc.py:visit_transition"): "crash:transition-in-container",
-    ("AssertionError", "nodes.py:replace_self"): "crash:docutils:attributes-on-pending-node",
 }
 
 
@@ -92,6 +91,11 @@ def crash_key(sig):
     k = KNOWN_FRAMES.get((sig["type"], sig["inner"]))
     if k:
         return k
+    if (sig["type"], sig["inner"]) == ("AssertionError", "nodes.py:replace_self"):
+        # docutils refuses to drop ids/classes when a node is replaced by a list: keyed by the transform that does it
+        if sig.get("caller") == "references.py:apply":
+            return "crash:docutils:attributes-on-pending-node"
+        return f"crash:replace_self-loses-attributes:{sig.get('caller')}"
     if sig["type"] == "RecursionError":
         # the innermost frame of a RecursionError is arbitrary: key by the innermost myst_parser frame
         return f"crash:RecursionError:{sig['myst'] or sig['inner']}"
